@@ -22,11 +22,11 @@ EXPLANATION = "metamorphic relations between pairs of real runs over a bounded l
 ADAPTIVE = ("linada", "expada")
 VMAPS_GENERIC = [(2.0, 0.0), (-1.0, 0.0), (0.5, 3.0), (-3.7, 1.25)]
 VMAPS_EXACT = [(2.0, 0.0), (-1.0, 0.0), (0.25, 0.0), (1.0, 3.0)]
-TMAPS = [(2.0, 0.0), (1.0, 5.0), (0.1, -3.3), (8.0, 1.0)]
+TMAPS = [(2.0, 0.0), (1.0, 5.0), (0.1, -3.3), (8.0, 1.0), (1.0, float(2 ** 20)), (0.5, -float(2 ** 24))]
 
 
 def bounds(tier, seed):
-    return {"m": 6, "y": "{0,1,3}^6" if tier == "quick" else "V^6", "value_maps": 4, "time_maps": 4}
+    return {"m": 6, "y": "{0,1,3}^6" if tier == "quick" else "V^6", "value_maps": 4, "time_maps": len(TMAPS)}
 
 
 def _run(st, x, y, n, p):
@@ -63,6 +63,11 @@ def check_timemap(case):
     key = {"strategy": st, "relation": "time-map"}
     sx = max(1.0, max(abs(v) for v in x2))
     sy = max(1.0, max(abs(float(v)) for v in y))
+    # conditioning: after a large shift the abscissae carry a rounding error of one ulp of their
+    # magnitude, which the fits divide by the sample spacing; allow for it explicitly
+    import math
+    cond = math.ulp(sx) / float(np.min(np.diff(xs1)))
+    sy = sy * (1.0 + 16.0 * cond / 1e-9)
     if np.any(np.abs(xs1 - (c * xs0 + d)) > 1e-9 * sx):
         fails.append(fail("time-map-abscissae", {"c": c, "d": d, "observed": xs1, "expected": c * xs0 + d}, key))
     if np.any(np.abs(ys1 - ys0) > 1e-9 * sy):
@@ -155,7 +160,7 @@ def harnesses(tier, seed):
             a, b = vmaps[idx % 4]
             judge(ctx, check_valuemap, {"strategy": st, "x": x, "y": list(y), "n": n, "p": p, "a": a, "b": b}, calls=2, bulk=True,
                   nontrivial=lambda s: len(set(s[-1])) > 1)
-            c, d = TMAPS[(idx // 4) % 4]
+            c, d = TMAPS[(idx // 4) % len(TMAPS)]
             judge(ctx, check_timemap, {"strategy": st, "x": x, "y": list(y), "n": n, "p": p, "c": c, "d": d}, calls=2, bulk=True,
                   nontrivial=lambda s: len(set(s[-1])) > 1)
         # locality: every single-value replacement inside the lattice (no extra runs needed)
